@@ -21,7 +21,15 @@ RULE = (
     "untouched) and compared with the model. Exhaustive: every subset and every declaration order of a 4-key "
     "alphabet x 10 requests (incl. the default name 'latest') x all sequences up to length 2 (3 thorough) x three "
     "families; plus interleaved selections on parent / child / sibling with their own tables incl. the same string on "
-    "two classes. non-trivial = the table is "
+    "two classes. Tables completed AFTER the class statement: a case may state, per class, the table as the class "
+    "statement has it (absent, empty, a part, all keys bound to other lists, an extra key) and how it reaches its "
+    "declared content later (whole table assigned on the class / the class's own dict edited in place: keys added, "
+    "deleted, re-bound), right after the class's own statement, after parent, child and sibling exist, or after "
+    "leading selections with the empty request string (below every key, so they must change nothing); the model "
+    "is asked with the declared (final) table only, because the law speaks of the declared versions, not of when "
+    "they were declared (every subset and order of the key alphabet x every single request x way/part/moment "
+    "cycling, on the child's own or the inherited parent's table; a quarter of the hierarchy cases; 28% of the "
+    "random tables). non-trivial = the table is "
     "not empty; distinct by full case."
 )
 ASSUMPTIONS = ["single inheritance class trio (parent, child, sibling); version keys are str"]
@@ -82,21 +90,68 @@ def build(case):
         comps = [mk(i) for i in range(8)]
     lists = {i: [comps[i]] for i in range(8)}
     lists[EMPTY_ID] = []  # one declared list is EMPTY (a version in which the file has no typed component)
-    tables = [None if t is None else {codec.dec_str(k): lists[v] for k, v in t} for t in case["tables"]]
+    def dic(t):
+        return None if t is None else {codec.dec_str(k): lists[v] for k, v in t}
+
+    tables = [dic(t) for t in case["tables"]]
     init = case["init"]
+    late = late_of(case)
 
     def ns_for(i):
         ns = {"__slots__": []}
         if tables[i] is not None:
-            ns["VERSIONS"] = tables[i]
+            if late[i] is None:
+                ns["VERSIONS"] = tables[i]
+            elif late[i].get("body") is not None:
+                ns["VERSIONS"] = dic(late[i]["body"])  # the table as the class statement has it
         if init[i] is not None:
             ns[attr] = lists[init[i]]
         return ns
 
-    Parent = type("P", (Base,), ns_for(0))
-    Child = type("C", (Parent,), ns_for(1))
-    Sibling = type("S", (Parent,), ns_for(2))
-    return attr, comps, lists, Parent, Child, Sibling
+    classes = [None, None, None]
+    pending = {0, 1, 2}
+
+    def complete(i):
+        """bring the table of class i to its declared final content AFTER the class statement"""
+        pending.discard(i)
+        if late[i] is None or tables[i] is None:
+            return
+        cls = classes[i]
+        if late[i].get("assign") or "VERSIONS" not in cls.__dict__:
+            cls.VERSIONS = dict(tables[i])  # the whole table assigned on the class
+            return
+        d = cls.VERSIONS  # the class's own dict, edited in place
+        for k in [k for k in d if k not in tables[i]]:
+            del d[k]
+        for k, v in tables[i].items():
+            d[k] = v
+
+    def finish(stage):
+        for i in sorted(pending):
+            if late[i] is None or late[i].get("at", "all") in (("own", "all") if stage == "all" else ("own", "all", "warm")):
+                complete(i)
+
+    for i, (name, parent) in enumerate((("P", None), ("C", 0), ("S", 0))):
+        classes[i] = type(name, (Base if parent is None else classes[parent],), ns_for(i))
+        if late[i] is None or late[i].get("at", "all") == "own":
+            complete(i)
+    Parent, Child, Sibling = classes
+    return attr, comps, lists, Parent, Child, Sibling, finish
+
+
+def late_of(case):
+    """per class: None = the version table stands complete in the class statement; else
+    {"body": table in the class statement | None (no VERSIONS there), "assign": whole table assigned later (else the
+    class's own dict is edited in place: keys added / deleted / re-bound), "at": "own" right after the class's own
+    statement | "all" after parent, child and sibling exist | "warm" after selections with the empty request string}"""
+    late = list(case.get("late") or [None, None, None])
+    return [l if (l and case["tables"][i] is not None) else None for i, l in enumerate(late + [None] * 3)][:3]
+
+
+def warm_possible(case):
+    """the empty request string is below every key unless some table (final or in a class statement) has the key ''"""
+    ts = [t for t in case["tables"] if t] + [l["body"] for l in late_of(case) if l and l.get("body")]
+    return all(len(k) > 0 for t in ts for k, _ in t)
 
 
 def which(lists, lst, comps=None):
@@ -128,10 +183,15 @@ def used_by_read(fam, cls, comps):
 
 def run_impl(case):
     try:
-        attr, comps, lists, P, C, S = build(case)
+        attr, comps, lists, P, C, S, finish = build(case)
         classes = [P, C, S]
         trace, used = [], []
+        finish("all")
+        warm = warm_possible(case)
         for c, v in case["ops"]:
+            if not (warm and len(v) == 0):
+                finish("warm")  # leading selections with the empty request string run on the unfinished table
+                warm = False
             classes[c].set_version(codec.dec_str(v))
             trace.append([which(lists, getattr(k, attr), comps) for k in classes])
             used.append(used_by_read(case["family"], classes[c], comps))
@@ -148,7 +208,14 @@ def request(case, obs):
 
 def show_case(case):
     tb = [None if t is None else [(codec.dec_str(k), v) for k, v in t] for t in case["tables"]]
-    return f"tables(parent,child,sibling)={tb} init={case['init']} selections={[('PCS'[c], codec.dec_str(v)) for c, v in case['ops']]}"
+    txt = f"tables(parent,child,sibling)={tb} init={case['init']} selections={[('PCS'[c], codec.dec_str(v)) for c, v in case['ops']]}"
+    for i, l in enumerate(late_of(case)):
+        if l:
+            body = None if l.get("body") is None else [(codec.dec_str(k), v) for k, v in l["body"]]
+            when = {"own": "right after its class statement", "all": "after all three classes exist", "warm": "after the leading selections with the empty request string"}[l.get("at", "all")]
+            how = "assigned as a whole" if (l.get("assign") or body is None) else "completed in place (keys added / deleted / re-bound)"
+            txt += f"; the table of {['parent', 'child', 'sibling'][i]} {'was absent from' if body is None else f'stood as {body} in'} the class statement and was {how} {when}"
+    return txt
 
 
 def judge(case, obs, resp):
@@ -186,6 +253,10 @@ def features(case, obs):
         f.append("selection_on=" + "PCS"[c])
     if case["tables"][1] is None and case["tables"][0] is not None:
         f.append("table_inherited_from_parent")
+    for i, l in enumerate(late_of(case)):
+        if l:
+            f.append("table_completed_after_class_statement=" + ("assigned" if (l.get("assign") or l.get("body") is None) else "in_place"))
+            f.append("table_completed_at=" + l.get("at", "all"))
     return f
 
 
@@ -224,6 +295,7 @@ def hierarchy_cases(family):
     pt = [[codec.enc_str("v1"), 4], [codec.enc_str("v2"), 5]]
     ct = [[codec.enc_str("v1"), 1], [codec.enc_str("v2"), 2], [codec.enc_str("1.0"), 3]]
     reqs = ["v1", "v2", "v0", "latest", "v1.5", "1.0"]
+    n_ = 0
     for tables in ([pt, ct, None], [pt, ct, ct], [None, ct, pt], [pt, None, ct]):
         for init in ([6, 0, 7], [6, None, None], [None, 0, None]):
             for c1 in range(3):
@@ -233,6 +305,56 @@ def hierarchy_cases(family):
                             yield {"family": family, "tables": tables, "init": init, "ops": [[c1, codec.enc_str(v1)], [c2, codec.enc_str(v2)]]}
                             if v1 == v2:
                                 yield {"family": family, "tables": tables, "init": init, "ops": [[c1, codec.enc_str(v1)], [c2, codec.enc_str(v2)], [c2, codec.enc_str("v2")], [c1, codec.enc_str(v1)]]}
+                            n_ += 1
+                            if n_ % 4 == 0:  # the same with the tables completed after the class statements
+                                late = [None if t is None else late_variant(t, HOWS[(n_ // 4 + i) % 5], (n_ // 20) % 2, ATS[(n_ // 4 + 2 * i) % 3]) for i, t in enumerate(tables)]
+                                warm = [[c1, []]] if any(l and l["at"] == "warm" for l in late) else []
+                                yield {"family": family, "tables": tables, "init": init, "late": late, "ops": warm + [[c1, codec.enc_str(v1)], [c2, codec.enc_str(v2)]]}
+
+
+HOWS = ["keys", "assign_none", "assign", "rebind", "drop"]
+ATS = ["own", "all", "warm"]
+EXTRA = ["v1.1", "v3", "a"]
+
+
+def late_variant(table, how, k, at):
+    """one way in which `table` comes to stand on a class AFTER the class statement (the final table is `table` in all)"""
+    k = min(k, len(table))
+    if how == "assign_none":
+        return {"body": None, "assign": True, "at": at}
+    if how == "assign":
+        return {"body": table[:k], "assign": True, "at": at}
+    if how == "rebind":  # all keys there from the start, bound to other lists
+        return {"body": [[key, v % 5 + 1] for key, v in table[k:]] + table[:k], "assign": False, "at": at}
+    if how == "drop":  # a key that is deleted again, next to a part of the table
+        have = {codec.dec_str(key) for key, _ in table}
+        extra = [[codec.enc_str(e), 3] for e in EXTRA if e not in have][:1]
+        return {"body": table[:k] + extra, "assign": False, "at": at}
+    return {"body": table[:k], "assign": False, "at": at}
+
+
+def late_cases(family):
+    """tables that are completed AFTER the class statement: every subset and declaration order of the key alphabet x
+    every single request (and a thinned set of pairs), the way / the part present in the class statement / the
+    moment of completion cycling over the cases; the table on the child itself or on the parent (the child inherits)"""
+    n_ = 0
+    for n in range(1, len(KEYS) + 1):
+        for subset in itertools.combinations(range(len(KEYS)), n):
+            for order in itertools.permutations(subset):
+                table = [[codec.enc_str(KEYS[i]), i + 1] for i in order]
+                seqs = [[v] for v in REQS] + [[a, b] for j, (a, b) in enumerate(itertools.product(REQS, repeat=2)) if j % 7 == n_ % 7]
+                for seq in seqs:
+                    for rep in range(2 if len(seq) == 1 else 1):
+                        n_ += 1
+                        how, at, k = HOWS[n_ % 5], ATS[(n_ // 5) % 3], (n_ // 15) % n
+                        lv = late_variant(table, how, k, at)
+                        ops = ([""] if at == "warm" else []) + seq
+                        if n_ % 4 == 0:  # the table is the parent's; selections on the child that inherits it, and on the parent
+                            yield {"family": family, "tables": [table, None, None], "init": [6, 0 if n_ % 8 else None, 7], "late": [lv, None, None],
+                                   "ops": [[1 if j % 2 == 0 else 0, codec.enc_str(v)] for j, v in enumerate(ops)]}
+                        else:
+                            yield {"family": family, "tables": [None, table, None], "init": [6, 0, None if n_ % 2 else 7], "late": [None, lv, None],
+                                   "ops": [[1, codec.enc_str(v)] for v in ops]}
 
 
 def random_case(rng):
@@ -244,7 +366,12 @@ def random_case(rng):
         return [[codec.enc_str(k), rng.randrange(1, 6)] for k in rng.sample(pool, rng.randrange(0, 5))]
 
     ops = [[rng.choice([1, 1, 1, 0, 2]), codec.enc_str(rng.choice(REQS + pool + ["v99", "w", "v1.", "v10 "]))] for _ in range(rng.randrange(1, 6))]
-    return {"family": rng.choice(FAMILIES), "tables": [tbl(), tbl(), tbl()], "init": [rng.choice([6, None]), rng.choice([0, None]), rng.choice([7, None])], "ops": ops}
+    case = {"family": rng.choice(FAMILIES), "tables": [tbl(), tbl(), tbl()], "init": [rng.choice([6, None]), rng.choice([0, None]), rng.choice([7, None])], "ops": ops}
+    if rng.random() < 0.4:  # some of the tables come to stand on their class after the class statement
+        case["late"] = [late_variant(t, rng.choice(HOWS), rng.randrange(0, 4), rng.choice(ATS)) if (t is not None and rng.random() < 0.7) else None for t in case["tables"]]
+        if any(l and l["at"] == "warm" for l in case["late"]) and rng.random() < 0.7:
+            case["ops"] = [[rng.choice([0, 1, 2]), []] for _ in range(rng.randrange(1, 3))] + ops
+    return case
 
 
 def corpus_cases():
@@ -264,6 +391,7 @@ def chunks(tier, seed):
         for p in range(4):
             ch.append({"kind": "exh", "family": fam, "maxseq": maxseq if fam == "register" else max(1, maxseq - 1), "part": p, "of": 4})
         ch.append({"kind": "hier", "family": fam})
+        ch.append({"kind": "late", "family": fam})
     nrand = {"quick": 2000, "thorough": 160000}.get(tier, 6000)
     for i in range(4):
         ch.append({"kind": "random", "seed": seed * 1000 + i, "n": nrand // 4})
@@ -275,6 +403,8 @@ def cases_of(chunk):
         yield from corpus_cases()
     elif chunk["kind"] == "hier":
         yield from hierarchy_cases(chunk["family"])
+    elif chunk["kind"] == "late":
+        yield from late_cases(chunk["family"])
     elif chunk["kind"] == "exh":
         for i, c in enumerate(exhaustive_cases(chunk["family"], chunk["maxseq"])):
             if i % chunk["of"] == chunk["part"]:
@@ -297,3 +427,14 @@ def shrinks(case):
                 tt = list(case["tables"])
                 tt[c] = t[:i] + t[i + 1 :]
                 yield {**case, "tables": tt}
+    late = late_of(case)
+    if any(late):
+        yield {k: v for k, v in case.items() if k != "late"}
+        for c in range(3):
+            if late[c]:
+                yield {**case, "late": [None if i == c else l for i, l in enumerate(late)]}
+                if late[c].get("at", "all") != "own":
+                    yield {**case, "late": [{**l, "at": "own"} if i == c else l for i, l in enumerate(late)]}
+                b = late[c].get("body")
+                for i in range(len(b or [])):
+                    yield {**case, "late": [{**l, "body": b[:i] + b[i + 1 :]} if j == c else l for j, l in enumerate(late)]}
